@@ -13,6 +13,8 @@ fill it (see Drv/Redirect.lean for the idea), then one line per operation:
                                                      → ok <bytes> <path> Q <n> (k v)* | err <E>
   parsereq <bytes>                                   → need | err <E> | ok …request fields… R <rest>
   environ <scheme> <bytes>                           → need | err <E> | ok <n> (key s:<text>|b:<bytes>)*
+  valetenviron <servant ~|0|1> <scheme> <bytes>      → the same for a Valet constructed with servant= / scheme=
+  server <servant ~|0|1> <scheme> <port|~>           → err ValueError | ok <scheme> <secured> <port>
   respond <chunkable 0|1> <date> (~ | <status> <n> (k v)*) items…   → ok <ended 0|1> <bytes> | err <E>
         items: Y <bytes> | S <bytes> | X | E <status> <reason> <title> <detail> <fault|~> <n> (k v)*
   parseresp <method> <closed 0|1> <bytes>            → need | err <E> | ok …response fields… R <rest>
@@ -218,6 +220,25 @@ def step (t : Table) (line : String) : Table × String :=
         let env := buildEnviron scheme q
         "ok " ++ toString env.length ++ String.join (env.map (fun kv => " " ++ hex kv.1 ++ " " ++ fmtEVal kv.2)))))
     | _, _ => (t, "bad-op")
+  | ["valetenviron", servant, scheme, b] =>
+    let sv? : Option (Option Bool) := if servant == "~" then some none else if servant == "1" then some (some true)
+      else if servant == "0" then some (some false) else none
+    (match sv?, str? scheme, hexToBytes? b with
+     | some sv, some scheme, some b => (t, guard (resStr (parseRequest t.std b) (fun q _ =>
+        match valetEnviron sv scheme q with
+        | .error e => fmtErr e
+        | .ok env => "ok " ++ toString env.length ++ String.join (env.map (fun kv => " " ++ hex kv.1 ++ " " ++ fmtEVal kv.2)))))
+     | _, _, _ => (t, "bad-op"))
+  | ["server", servant, scheme, port] =>
+    let sv? : Option (Option Bool) := if servant == "~" then some none else if servant == "1" then some (some true)
+      else if servant == "0" then some (some false) else none
+    let port? : Option (Option Nat) := if port == "~" then some none else port.toNat?.map some
+    (match sv?, str? scheme, port? with
+     | some sv, some scheme, some port =>
+       (match serverScheme sv scheme with
+        | .error e => (t, fmtErr e)
+        | .ok (sch, sec, dp) => (t, "ok " ++ hex sch ++ " " ++ fmtBool sec ++ " " ++ toString (serverPort port dp)))
+     | _, _, _ => (t, "bad-op"))
   | "respond" :: ch :: date :: rest =>
     match str? date with
     | none => (t, "bad-op")
